@@ -240,6 +240,17 @@ func (s *Session) startDelivery(ctx context.Context, from string, opts smtp.Mail
 		}
 	}
 
+	// INTERNATIONALIZATION: SMTPUTF8 addresses are UTF-8 (RFC 6531). Other byte
+	// sequences cannot be stored or relayed unchanged (e.g. the queue keeps
+	// the envelope as JSON), so do not accept them.
+	if !utf8.ValidString(from) {
+		return "", &exterrors.SMTPError{
+			Code:         553,
+			EnhancedCode: exterrors.EnhancedCode{5, 1, 7},
+			Message:      "Sender address is not valid UTF-8",
+		}
+	}
+
 	// Decode punycode, normalize to NFC and case-fold address.
 	cleanFrom := from
 	if from != "" {
@@ -418,6 +429,14 @@ func (s *Session) rcpt(ctx context.Context, to string, opts *smtp.RcptOptions) e
 			Code:         553,
 			EnhancedCode: exterrors.EnhancedCode{5, 6, 7},
 			Message:      "SMTPUTF8 is required for non-ASCII recipients",
+		}
+	}
+	// See the corresponding check for the sender address.
+	if !utf8.ValidString(to) {
+		return &exterrors.SMTPError{
+			Code:         553,
+			EnhancedCode: exterrors.EnhancedCode{5, 1, 3},
+			Message:      "Recipient address is not valid UTF-8",
 		}
 	}
 	cleanTo, err := address.CleanDomain(to)
